@@ -41,7 +41,12 @@ def cases(tier, seed):
                     "workers": int(rng.choice([1, 2, 3, 4, 8])),
                     "chunk": int(rng.choice([0, 0, 5, 9, 16])), "order": int(rng.choice([0, 1])),
                     "n_set": int(rng.integers(1, 5)), "split_seed": int(rng.integers(0, 21)),
+                    "tdtype": ("float32", "float32", "float32", "int16")[int(rng.integers(0, 4))],
                     "iseed": int(rng.integers(0, 2**31)), "cost": 4.0})
+    for i in range(1 if tier == "quick" else 6):
+        out.append({"kind": "xproc", "N": int(rng.choice([9, 14])), "S": 3, "sched": "sync", "workers": 1, "chunk": 0,
+                    "order": 0, "n_set": 2, "split_seed": int(rng.integers(0, 21)), "iseed": int(rng.integers(0, 2**31)),
+                    "cost": 12.0})
     return out
 
 
@@ -91,6 +96,9 @@ def _world(rng, p, onehot: bool):
     for j, n in enumerate(counts):
         T = (spacing + 2, spacing + 2, spacing * n + 2)
         vol = np.zeros(T, np.float32) if onehot else rng.normal(size=T).astype(np.float32)
+        if not onehot and p.get("tdtype") == "int16":
+            # raw counts near the top of the 16-bit range: a sum of a few sub-volumes does not fit the dtype
+            vol = rng.integers(15000, 30000, size=T).astype(np.int16)
         pos = []
         for i in range(n):
             # box origin (integer); centre = origin + (S-1)/2 (half-integer for even S)
@@ -123,10 +131,59 @@ def _sets_from_onehot(h, N, S):
     return idx, flat
 
 
+_XPROC = r"""
+import sys, json, hashlib
+import numpy as np, polars as pl
+from acryo import SubtomogramLoader, Molecules
+N, S, seed, n_set = (int(v) for v in sys.argv[1:5])
+spacing = S + 4
+T = (spacing + 2, spacing + 2, spacing * N + 2)
+vol = np.zeros(T, np.float32)
+pos = []
+for i in range(N):
+    o = np.array([3, 3, 3 + spacing * i])
+    k = np.unravel_index(i % (S ** 3), (S, S, S))
+    vol[o[0] + k[0], o[1] + k[1], o[2] + k[2]] = 1.0
+    pos.append(o + (S - 1) / 2)
+keys = [("alpha", "beta", "gamma-delta")[i % 3] for i in range(N)]
+mole = Molecules(np.array(pos), features=pl.DataFrame({"uid": list(range(N)), "name": keys}))
+ld = SubtomogramLoader(vol, mole, order=0, output_shape=(S, S, S))
+out = {}
+for k, arr in ld.groupby("name").average_split(n_set=n_set, seed=seed, squeeze=False).items():
+    out[str(k)] = [[sorted(np.where(np.nan_to_num(arr[i, h]).reshape(-1)[:N] > 1e-9)[0].tolist()) for h in (0, 1)] for i in range(n_set)]
+print("RESULT " + json.dumps(out, sort_keys=True))
+"""
+
+
+def _xproc_case(case):
+    """The split of a group for a given seed is the same in every interpreter session (string keys, any hash seed)."""
+    import json, os, subprocess, sys
+    from vcheck import runner
+
+    p = case.params
+    outs = []
+    for hs in ("1", "2", "77"):
+        env = dict(os.environ, PYTHONHASHSEED=hs, PYTHONPATH=os.environ.get("VERIF_REPO", "/repo"))
+        r = subprocess.run([sys.executable, "-c", _XPROC, str(p["N"]), str(p["S"]), str(p["split_seed"]), str(p["n_set"])],
+                           capture_output=True, text=True, timeout=600, env=env, cwd=os.environ.get("VERIF_REPO", "/repo"))
+        line = [l for l in r.stdout.splitlines() if l.startswith("RESULT ")]
+        if not case.check(bool(line), "group split in a child interpreter failed", None, stderr=r.stderr[-300:]):
+            return
+        outs.append(json.loads(line[0][7:]))
+    case.nontrivial(p["iseed"])
+    case.check(outs[0] == outs[1] == outs[2], "the same seed gives different group splits in different interpreter sessions "
+               "(string group keys)", None, a=str(outs[0])[:200], b=str(outs[1])[:200])
+    for k, sets in outs[0].items():
+        for s0, s1 in sets:
+            case.check(not (set(s0) & set(s1)) and (s0 or s1), "child interpreter: halves overlap or are both empty", None, key=k)
+
+
 def run(case):
     from acryo import MockLoader, Molecules
     from vcheck import instr
 
+    if case.params["kind"] == "xproc":
+        return _xproc_case(case)
     p = case.params
     rng = gen.rng_for(p["iseed"], "c09")
     N, S = p["N"], p["S"]
